@@ -670,7 +670,8 @@ def r4(ctx: Ctx) -> None:
 
 
 def r5(ctx: Ctx, rid: str = "C19.R5") -> None:
-    ctx.rule(rid, "release: flock mode never unlinks the lock file; the S3 release deletes only under content == lock_id", 2)
+    ctx.rule(rid, "release: flock mode never unlinks the lock file (and fallback mode is claimed only after an O_EXCL create); "
+             "release() clears the held flag; the S3 release deletes only under content == lock_id", 2)
     rel = ctx.fn("file_lock.FileLock.release")
     g = ctx.cfg(rel)
     unl = [n for n in g.calls() if ctx.eff.prims_reached(rel, n) & {"os.unlink", "os.remove", "shutil.rmtree", "method.unlink"}]
@@ -686,6 +687,42 @@ def r5(ctx: Ctx, rid: str = "C19.R5") -> None:
     ctx.ob(rid, rel, "release unlocks / closes the descriptor", None,
            bool(ctx.calls(rel, prim="os.close")) and (bool(ctx.calls(rel, prim="fcntl.flock")) or bool(ctx.calls(rel, prim="msvcrt.locking"))),
            "LOCK_UN + close", nontrivial=False)
+    # the mode flag release() branches on tells the truth: it is set True only after the O_EXCL create succeeded (a flock
+    # acquisition that claims fallback mode makes release() unlink the inode every other process locks)
+    fl = ctx.prog.cls("file_lock.FileLock")
+    from .common import judged_in_callers
+    for m in fl.methods.values():
+        if judged_in_callers(ctx, m):
+            continue  # a later-added helper (`_mark_acquired(fd, excl_fallback)`): judged where it is analysed in place
+        mg = ctx.cfg(m)
+        mdom = ctx.dom(m, NORMAL)
+        for n in mg.nodes:
+            if n.kind == "stmt" and isinstance(n.ast, ast.Assign) and any(norm_text(t).endswith("._used_excl_fallback") for t in n.ast.targets) \
+                    and n.id in mg.reachable():
+                srcs = [x for x, _a in resolve_value(ctx, m, n.ast.value, n.id)]
+                if srcs and all(isinstance(x, ast.Constant) and x.value is False for x in srcs):
+                    continue
+                v = srcs[0] if len(srcs) == 1 else n.ast.value
+                excl = [c for c in mg.calls() if c.callee is not None and c.callee.kind == "prim" and c.callee.name == "os.open"
+                        and "O_EXCL" in c.text and c.id in mdom[n.id]]
+                ctx.ob(rid, m, "fallback mode is claimed only after an O_EXCL create", n, isinstance(v, ast.Constant) and v.value is True and bool(excl),
+                       "release() unlinks the lock file exactly when its existence is the lock" if excl else
+                       f"`{n.text}` in {m.name}: a kernel-lock acquisition marked as fallback mode makes release() delete the locked inode")
+    # release() ends with the flag cleared: is_held() never reports a lock that was let go
+    locked_false = [n for n in g.nodes if n.kind == "stmt" and isinstance(n.ast, ast.Assign) and any(norm_text(t) == "self._locked" for t in n.ast.targets)
+                    and isinstance(n.ast.value, ast.Constant) and n.ast.value.value is False]
+    unlock = [n for n in g.calls() if n.callee is not None and n.callee.kind == "prim" and n.callee.name in ("os.close", "fcntl.flock", "msvcrt.locking")]
+    w_ = None
+    for u in unlock:
+        for d_, l_ in g.succ[u.id]:
+            if l_ in NORMAL and w_ is None:
+                w_ = find_path(g, d_, [g.exit], avoid=[x.id for x in locked_false], labels=NORMAL) if d_ not in [x.id for x in locked_false] else None
+    others = [n for n in g.nodes if n.kind == "stmt" and isinstance(n.ast, ast.Assign) and any(norm_text(t) == "self._locked" for t in n.ast.targets)
+              and n not in locked_false and n.id in g.reachable()]
+    ctx.ob(rid, rel, "release() clears the held flag", locked_false[0] if locked_false else None, bool(locked_false) and w_ is None and not others,
+           "every normal way out after the unlock passes `self._locked = False`" if locked_false and w_ is None and not others else
+           "after release() the instance still answers is_held() == True: a lock that was let go is reported as held",
+           witness=ctx.path_witness(rel, w_))
     llp = ctx.prog.cls("lock_provider.LocalLockProvider")
     for m in llp.methods.values():
         direct = [n for n in ctx.cfg(m).calls() if n.callee and n.callee.kind == "prim" and n.callee.name in
